@@ -1093,7 +1093,16 @@ def c06(ctx, tr):
                 any(pc[j] == 0 and I.puq[j] == 0 for j in range(I.n2)):
             res['probes']['full-and-empty-agent'] = 1
         got = r.get('stability_correct')
-        if got != verdict:
+        if not byz and got != 'True':
+            # the corollary: after a (fault-free) run with the stability
+            # option the line is always True
+            res['violations'].append(
+                ('stability_correct-not-True-after-stab-run',
+                 'says-%s' % got,
+                 {'matching': M, 'printed': got,
+                  'reference_for_printed_matching': verdict,
+                  'blocking_pairs': bp[:3]}))
+        elif got != verdict:
             res['violations'].append(
                 ('stability_correct-wrong',
                  'says-%s-is-%s' % (got, verdict) + (
